@@ -181,10 +181,20 @@ func (s *Store) handleMergeCommand(merge *pb.MergeCommand) error {
 	if !ok {
 		return fmt.Errorf("raftstore: source region %d not found", merge.GetSourceRegionId())
 	}
+	if parentMeta.ID == sourceMeta.ID {
+		return fmt.Errorf("raftstore: cannot merge region %d into itself", parentMeta.ID)
+	}
 	updated := parentMeta
 	updated.Epoch.Version++
-	if len(sourceMeta.EndKey) == 0 || bytes.Compare(sourceMeta.EndKey, updated.EndKey) > 0 {
+	switch {
+	case len(parentMeta.EndKey) > 0 && bytes.Equal(sourceMeta.StartKey, parentMeta.EndKey):
+		// source is the right neighbour: the target takes over its end key.
 		updated.EndKey = append([]byte(nil), sourceMeta.EndKey...)
+	case len(sourceMeta.EndKey) > 0 && bytes.Equal(sourceMeta.EndKey, parentMeta.StartKey):
+		// source is the left neighbour: the target takes over its start key.
+		updated.StartKey = append([]byte(nil), sourceMeta.StartKey...)
+	default:
+		return fmt.Errorf("raftstore: region %d is not adjacent to region %d", sourceMeta.ID, parentMeta.ID)
 	}
 	if err := s.UpdateRegion(updated); err != nil {
 		return err
